@@ -137,6 +137,21 @@ def gen_case(rng):
         arrays["c.zz"] = {"dims": [[nc], [nz]], "attrs": cattrs, "list": "states", "inner_attr": True}
         arrays["c.s"] = {"dims": [[nc], []], "attrs": {}, "list": "alg_states"}
         tags.add("component-array-holding-array")
+    elif k < 0.6:
+        # one component holding an array: c.zz[j]  (same flat name and CasADi shape as the next form, other indices)
+        nz = rng.randint(2, 3)
+        pre = "model C\n  Real zz[%d];\n  Real s;\nequation\n  der(zz) = -zz;\n  s = sum(zz);\nend C;\n\n" % nz
+        decls.append("  C c;")
+        arrays["c.zz"] = {"dims": [[], [nz]], "attrs": {}, "list": "states"}
+        tags.add("component-holding-array")
+    elif k < 0.75:
+        # array of components holding a scalar: c[i].zz
+        nc = rng.randint(2, 3)
+        pre = "model C\n  Real zz;\n  Real s;\nequation\n  der(zz) = -zz;\n  s = 2 * zz;\nend C;\n\n"
+        decls.append("  C c[%d];" % nc)
+        arrays["c.zz"] = {"dims": [[nc], []], "attrs": {}, "list": "states"}
+        arrays["c.s"] = {"dims": [[nc], []], "attrs": {}, "list": "alg_states"}
+        tags.add("component-array-holding-scalar")
     decls.append("  Real q;")
     eqs.append("  q = sum(x);")
     text = pre + "model M\n" + "\n".join(decls) + "\nequation\n" + "\n".join(eqs) + "\nend M;\n"
